@@ -307,6 +307,10 @@ def cases(tier, seed):
             out.append({"id": "update:%s:medium_index=%s" % (base, k),
                         "kind": "update", "base": base, "first": k})
     out.append({"id": "update:polarization-spellings", "kind": "updatepol"})
+    out.append({"id": "update:dict-on-2d-image", "kind": "misc16",
+                "what": "dict2d"})
+    out.append({"id": "raster:labelled-metadata-arrays", "kind": "misc16",
+                "what": "labelled"})
     d = SEQ_DEPTH[tier]
     for a in SEQ_OPS:
         for b in SEQ_OPS:
@@ -333,9 +337,8 @@ def _content(shape, dtype, h5=False):
             a[0] = -0.0
             a[-1] = 1e-300 if dtype == "float64" else 1e-30
     elif dtype == "int16":
-        a = base * 290 + 7
-        if h5:
-            a = a - 15000
+        # signed counts whose RANGE (40000) does not fit the type itself
+        a = base * 400 - 20000
     else:
         a = base * 2 + 3
     return a.reshape(shape).astype(dtype)
@@ -868,6 +871,74 @@ def _run_tiffconst(case, ck, d):
                 "%s" % (val, dtype, _short(g.ravel()[:4].tolist())))
         acc.append(np.nan_to_num(g, nan=-1.0))
     return digest(*acc)
+
+
+def _run_misc16(case, ck, d):
+    import xarray as xr
+    from PIL import Image
+    from holopy.core.metadata import data_grid, update_metadata
+    from holopy.core.io import load_image
+    if case["what"] == "dict2d":
+        # per-channel metadata on an image that has a scalar z coordinate
+        # (one plane picked out of a stack), and on a 2 x 2 image whose pixel
+        # coordinates happen to equal the channel labels 0, 1
+        acc = []
+        im = data_grid(_content([3, 4, 2], "float64"), spacing=0.1,
+                       extra_dims={ILL: ["red", "green"]})
+        for label, img, wl in (
+                ("image.isel(z=0)", im.isel(z=0),
+                 {"red": 0.66, "green": 0.52}),
+                ("2x2 image with channels 0, 1",
+                 data_grid(_content([2, 2, 2], "float64"), spacing=1,
+                           extra_dims={ILL: [0, 1]}), {0: 0.66, 1: 0.52})):
+            try:
+                out = update_metadata(img, illum_wavelen=wl)
+                ck.trans += 1
+            except Exception as e:
+                ck.true("update-accepts", False, "update_metadata(%s, "
+                        "illum_wavelen=dict) raised %s" % (label, _exc(e)))
+                continue
+            got = out.attrs["illum_wavelen"]
+            ok = isinstance(got, xr.DataArray) and tuple(got.dims) == (ILL,) \
+                and {k: float(got.sel({ILL: k})) for k in wl} == wl
+            ck.true("update-named-field", ok, "update_metadata(%s, "
+                    "illum_wavelen=%r) stored %s" % (label, wl, _short(got)))
+            acc.append(repr(sorted(wl.items(), key=str)))
+        return digest(acc)
+    # labelled arrays given to load_image, listed in another order than the
+    # requested colour channels
+    arr = (np.arange(4 * 5 * 3) * 3 % 250).reshape(4, 5, 3).astype("uint8")
+    path = os.path.join(d, "rgb.png")
+    Image.fromarray(arr).save(path)
+    wl = xr.DataArray([0.52, 0.66], dims=[ILL], coords={ILL: ["green",
+                                                              "red"]})
+    pol = xr.DataArray([[0.0, 1.0, 0.0], [1.0, 0.0, 0.0]],
+                       dims=[ILL, "vector"],
+                       coords={ILL: ["green", "red"],
+                               "vector": ["x", "y", "z"]})
+    acc = []
+    for ch in ((0, 1), (1, 0)):
+        try:
+            im = load_image(path, spacing=0.1, channel=ch, illum_wavelen=wl,
+                            illum_polarization=pol)
+            ck.trans += 1
+        except Exception as e:
+            ck.true("raster-accepts", False, "load_image(channel=%r, "
+                    "labelled wavelength / polarization arrays) raised %s" %
+                    (ch, _exc(e)))
+            continue
+        w = im.attrs["illum_wavelen"]
+        p = im.attrs["illum_polarization"]
+        ok = float(w.sel({ILL: "red"})) == 0.66 and \
+            float(w.sel({ILL: "green"})) == 0.52 and \
+            [float(v) for v in p.sel({ILL: "red"}).values[:2]] == [1.0, 0.0]
+        ck.true("raster-metadata-by-label", ok, "load_image(channel=%r) "
+                "with arrays labelled ['green', 'red']: red has wavelength "
+                "%r and polarization %r" %
+                (ch, float(w.sel({ILL: "red"})),
+                 p.sel({ILL: "red"}).values.tolist()))
+        acc.append(repr(ch))
+    return digest(acc)
 
 
 def _run_tiffunit(case, ck, d):
@@ -1725,6 +1796,8 @@ def run_case(case):
             fp, outcome = _run_average(case, ck, d)
         elif k == "update":
             fp = _run_update(case, ck, d)
+        elif k == "misc16":
+            fp = _run_misc16(case, ck, d)
         elif k == "updatepol":
             fp = _run_updatepol(case, ck, d)
         elif k == "seq":
